@@ -57,10 +57,17 @@ def caseOrbit (c : Char) : List Char :=
   -- Cyrillic а–я ↔ А–Я
   else if 0x430 ≤ n ∧ n ≤ 0x44F then [Char.ofNat (n - 0x20)]
   else if 0x410 ≤ n ∧ n ≤ 0x42F then [Char.ofNat (n + 0x20)]
+  -- micro sign / Greek mu
+  else if n = 0xB5 then [Char.ofNat 0x3BC, Char.ofNat 0x39C]
+  else if n = 0x3BC then [Char.ofNat 0xB5, Char.ofNat 0x39C]
+  else if n = 0x39C then [Char.ofNat 0xB5, Char.ofNat 0x3BC]
   -- Greek sigma
   else if n = 0x3C3 then [Char.ofNat 0x3A3, Char.ofNat 0x3C2]
   else if n = 0x3A3 then [Char.ofNat 0x3C3, Char.ofNat 0x3C2]
   else if n = 0x3C2 then [Char.ofNat 0x3C3, Char.ofNat 0x3A3]
+  -- Greek α–ω ↔ Α–Ω (the further partners ϐ ϑ ϕ ϖ ϰ ϱ ϵ, Ω U+2126, ι U+1FBE lie outside `knownChar`)
+  else if 0x3B1 ≤ n ∧ n ≤ 0x3C9 then [Char.ofNat (n - 0x20)]
+  else if 0x391 ≤ n ∧ n ≤ 0x3A9 ∧ n ≠ 0x3A2 then [Char.ofNat (n + 0x20)]
   -- Ǆ ǅ ǆ
   else if n = 0x1C4 then [Char.ofNat 0x1C5, Char.ofNat 0x1C6]
   else if n = 0x1C5 then [Char.ofNat 0x1C4, Char.ofNat 0x1C6]
@@ -277,6 +284,59 @@ def isPlain (c : Char) : Bool :=
 def isClsPlain (c : Char) : Bool :=
   !(c = '\\' || c = '[' || c = ']' || c = '^' || c = '-' || c = '&' || c = '~')
 
+/-! #### Unicode-aware classes, as tables over the code points the generators draw
+
+`\w`, `\d`, `\s`, `\pL` of the regex crate are Unicode classes (thousands of ranges).  The model carries them as range tables
+restricted to the blocks the harness generators use – ASCII, Latin-1, Latin Extended-A/B (`İ`, `ſ`, `ǅ`), combining marks
+U+0300–036F, Greek capital and small letters, Cyrillic U+0400–045F, the Arabic-Indic / Devanagari / full-width digits, the Kelvin
+sign, Latin Extended Additional (`ẞ`), CJK U+4E00–9FFF, and the Unicode spaces – and says for which characters the tables are
+authoritative (`knownChar`: everything else is outside the model; the driver then leaves the case to the implementation-side
+oracles).  Validated against the crate in mode `rx` and on every twin case that gets an `s`. -/
+
+def rg (a b : Nat) : Char × Char := (Char.ofNat a, Char.ofNat b)
+
+/-- `\d` = `\p{Nd}`. -/
+def digitRanges : List (Char × Char) := [rg 0x30 0x39, rg 0x660 0x669, rg 0x966 0x96F, rg 0xFF10 0xFF19]
+
+/-- `\s` = `\p{White_Space}`. -/
+def spaceRanges : List (Char × Char) :=
+  [rg 0x09 0x0D, rg 0x20 0x20, rg 0x85 0x85, rg 0xA0 0xA0, rg 0x1680 0x1680, rg 0x2000 0x200A, rg 0x2028 0x2029,
+   rg 0x202F 0x202F, rg 0x205F 0x205F, rg 0x3000 0x3000]
+
+/-- `\pL` (letters) on the covered blocks. -/
+def letterRanges : List (Char × Char) :=
+  [rg 0x41 0x5A, rg 0x61 0x7A, rg 0xAA 0xAA, rg 0xB5 0xB5, rg 0xBA 0xBA, rg 0xC0 0xD6, rg 0xD8 0xF6, rg 0xF8 0x24F,
+   rg 0x391 0x3A1, rg 0x3A3 0x3C9, rg 0x400 0x45F, rg 0x1E00 0x1EFF, rg 0x212A 0x212A, rg 0x4E00 0x9FFF]
+
+/-- `\w` = Alphabetic ∪ marks ∪ decimal digits ∪ connector punctuation ∪ join controls, on the covered blocks. -/
+def wordRanges : List (Char × Char) :=
+  letterRanges ++ digitRanges ++ [rg 0x5F 0x5F, rg 0x300 0x36F, rg 0x200C 0x200D]
+
+/-- Characters on which the tables above are authoritative: the covered blocks, ASCII, the Latin-1 block, general
+punctuation U+2000–206F, `€`, and the emoji the generators use. -/
+def knownChar (c : Char) : Bool :=
+  let n := c.toNat
+  n < 0x250 || (0x300 ≤ n && n ≤ 0x36F) || (0x391 ≤ n && n ≤ 0x3C9 && n != 0x3A2) || (0x400 ≤ n && n ≤ 0x45F) ||
+    (0x660 ≤ n && n ≤ 0x669) || (0x966 ≤ n && n ≤ 0x96F) || (0x1E00 ≤ n && n ≤ 0x1EFF) || (0x2000 ≤ n && n ≤ 0x206F) ||
+    n == 0x20AC || n == 0x212A || n == 0x3000 || (0x4E00 ≤ n && n ≤ 0x9FFF) || (0xFF10 ≤ n && n ≤ 0xFF19) ||
+    n == 0x1F918 || n == 0x1680
+
+/-- `\w \d \s \W \D \S`. -/
+def perlClass (d : Char) : Option Cls :=
+  if d = 'w' then some ⟨false, wordRanges⟩ else if d = 'W' then some ⟨true, wordRanges⟩
+  else if d = 'd' then some ⟨false, digitRanges⟩ else if d = 'D' then some ⟨true, digitRanges⟩
+  else if d = 's' then some ⟨false, spaceRanges⟩ else if d = 'S' then some ⟨true, spaceRanges⟩
+  else none
+
+/-- POSIX bracket classes (ASCII-only in the crate): `[:alpha:]` … inside `[ ]`. -/
+def posixClass (name : List Char) : Option (List (Char × Char)) :=
+  if name = "alpha".toList then some [('A', 'Z'), ('a', 'z')]
+  else if name = "digit".toList then some [('0', '9')]
+  else if name = "alnum".toList then some [('0', '9'), ('A', 'Z'), ('a', 'z')]
+  else if name = "upper".toList then some [('A', 'Z')]
+  else if name = "lower".toList then some [('a', 'z')]
+  else none
+
 /-- One class atom: a plain char or an escaped meta char. -/
 def pClsChar : List Char → Option (Char × List Char)
   | '\\' :: d :: rest => if isMeta d then some (d, rest) else none
@@ -289,6 +349,12 @@ def pClsItems : Nat → List Char → List (Char × Char) → Option (List (Char
   | fuel + 1, inp, acc =>
     match inp with
     | ']' :: rest => if acc.isEmpty then none else some (acc.reverse, rest)
+    | '[' :: ':' :: rest =>
+      -- `[:name:]`
+      let name := rest.takeWhile fun c => c != ':'
+      match posixClass name, rest.drop name.length with
+      | some rs, ':' :: ']' :: rest' => pClsItems fuel rest' (rs.reverse ++ acc)
+      | _, _ => none
     | _ =>
       match pClsChar inp with
       | none => none
@@ -388,7 +454,19 @@ def pAtom : Nat → List Char → Option (Re × List Char)
       | _ => none
     | '[' :: rest => pCls rest
     | '.' :: rest => some (Re.any, rest)
-    | '\\' :: d :: rest => if isMeta d then some (Re.chr d, rest) else none
+    | '\\' :: d :: rest =>
+      if isMeta d then some (Re.chr d, rest)
+      else
+        match perlClass d with
+        | some k => some (.cls k, rest)
+        | none =>
+          -- `\pL`, `\p{L}` (letters); `\b` and everything else: outside the fragment
+          if d = 'p' then
+            match rest with
+            | 'L' :: rest' => some (.cls ⟨false, letterRanges⟩, rest')
+            | '{' :: 'L' :: '}' :: rest' => some (.cls ⟨false, letterRanges⟩, rest')
+            | _ => none
+          else none
     | c :: rest => if isPlain c then some (Re.chr c, rest) else none
 end
 
